@@ -6,6 +6,7 @@ import CfbVerif.Phys.ApiInv
 import CfbVerif.Props.C01
 import CfbVerif.Phys.NoShare
 import CfbVerif.Phys.NoShareMini
+import CfbVerif.Phys.NoLeak
 /-!
 # C03 — every produced image is a well-formed MS-CFB file by an independent checker
 
@@ -40,6 +41,10 @@ Proved here are the allocator facts behind "at most one chain" and "marked as su
   the MiniFAT and the first mini sectors of all streams below 4096 bytes.  (The MiniFAT can shrink, so
   its range hypothesis is asked of every state between operations, `MiniBounded`; within an
   operation releases come before allocations.)
+  `C03_every_used_sector_owned_once`, `C03_owner_walks_succeed` (`Phys/Chains.lean`, `Phys/NoLeak.lean`):
+  in the same states every FAT cell that says END or holds a pointer lies on the chain of exactly
+  one owner (no leaks, no sharing), and the library's chain walk from every owner's start sector
+  succeeds and returns that chain, without repetition.
   What is *not* proved is the step from the API to that machine: that the lengths `physOf` hands to
   the stream operations are the directory's stream lengths (lock-stepped, and judged by
   `Spec.check` on every image of the campaign);
@@ -189,6 +194,34 @@ theorem C03_mini_chains_disjoint (v4 : Bool) (ops : List GOp)
   intro g h1 m1 h2 m2 x r1
   have n := (noShareMini_reachable v4 ops hb).ns
   exact ⟨fun r2 => n.disjoint m1 m2 r1 r2, n.reach_used m1 r1⟩
+
+/-- **every sector in use belongs to exactly one owner** -/
+theorem C03_every_used_sector_owned_once (v4 : Bool) (ops : List GOp) :
+    let g := grun { p := Phys.create v4, L := fun _ => 0 } ops
+    g.p.fat.size ≤ MAXREG + 1 →
+    ∀ x w : Nat, g.p.fat[x]? = some w → (w = END ∨ w ≤ MAXREG) →
+      ∃ h ∈ heads g.p g.L, (∃ l, IsChain g.p.fat h l ∧ x ∈ l) ∧
+        ∀ h' ∈ heads g.p g.L, (∃ l', IsChain g.p.fat h' l' ∧ x ∈ l') → h' = h := by
+  intro g hb x w hx hw
+  have j := noLeak_reachable v4 ops hb
+  obtain ⟨h, hh, l, cl, hxl⟩ := j.nc.cov x w hx hw
+  refine ⟨h, hh, ⟨l, cl, hxl⟩, ?_⟩
+  intro h' hh' ⟨l', cl', hxl'⟩
+  exact IsChain.disjoint j.nc.ns hh' hh cl' cl hxl' hxl
+
+/-- **the chain walk of every owner succeeds**, returns a list without repetition that begins at
+the owner's start sector, and every sector on it is in use -/
+theorem C03_owner_walks_succeed (v4 : Bool) (ops : List GOp) :
+    let g := grun { p := Phys.create v4, L := fun _ => 0 } ops
+    g.p.fat.size ≤ MAXREG + 1 →
+    ∀ h ∈ heads g.p g.L, ∃ l, chainIds g.p h = .ok l ∧ l.Nodup ∧ l.head? = some h ∧
+      ∀ x ∈ l, ∃ w, g.p.fat[x]? = some w ∧ w ≠ FREE := by
+  intro g hb h hh
+  have j := noLeak_reachable v4 ops hb
+  obtain ⟨l, cl⟩ := j.nc.ch h hh
+  refine ⟨l, chainFrom_of_isChain j.nc.ns hh cl, cl.nodup j.nc.ns hh, ?_, cl.used⟩
+  obtain ⟨t, e⟩ := cl.head
+  rw [e]; rfl
 
 /-- the hypotheses are met by a history that creates three streams (regular, regular, mini), frees
 one and reuses its sectors: heads are the directory (1), the mini stream (10), the MiniFAT (11) and
